@@ -231,6 +231,9 @@ def result_values(res):
     return [[[r.mu, r.sigma] for r in team] for team in res]
 
 
+NOLABEL = object()
+
+
 class League:
     """players[name] -> rating object (volatile); store[name] -> JSON '[mu, sigma]' (durable);
     one shared model (volatile, rebuilt from constructor kwargs on a full restart)."""
@@ -266,8 +269,8 @@ class League:
     def label(self, name):
         return self.labels.get(name, name)
 
-    def join(self, name, mu=None, sigma=None, has_mu=False, has_sigma=False, label=None, clone_of=None):
-        if label is not None:
+    def join(self, name, mu=None, sigma=None, has_mu=False, has_sigma=False, label=NOLABEL, clone_of=None):
+        if label is not NOLABEL:
             self.labels[name] = label
         if clone_of is not None and clone_of in self.players:
             # a new player made from a template: copy.deepcopy keeps the template's id, so two
@@ -277,7 +280,7 @@ class League:
             self.players[name] = p
             self.save(name)
             return p
-        kw = {"name": self.label(name)}
+        kw = {"name": self.label(name)} if self.label(name) is not None else {}
         if has_mu:
             kw["mu"] = mu
         if has_sigma:
@@ -450,9 +453,12 @@ def gen_population(rng, cfg, n, style):
     for i in range(n):
         name = "p%d" % i
         op = {"op": "NEW", "name": name}
-        if rng.random() < 0.25:
+        r0 = rng.random()
+        if r0 < 0.25:
             # the name the library gets: not every player is called p<i>
             op["label"] = rng.choice(ODD_NAMES) + (" #%d" % i if rng.random() < 0.5 else "")
+        elif r0 < 0.35:
+            op["label"] = None  # a player without a name
         r = rng.random()
         if style == "default" or (style == "mixed" and r < 0.4):
             pass
